@@ -32,6 +32,18 @@ theorem bind_generate_FN (ft : Feat) (e : BEnv) (Γ : Ctx) (cfg : SerCfg) (pcfg 
       parseRoot e Γ pcfg c t = .ok (v, 0) :=
   Proofs.C01.roundtrip_FN ft e Γ cfg pcfg c v hΓ hv
 
+/-- **C01, the provable part in one statement** (the full-strength statements `bind_generate_anyInstance`
+of `Props/C01.lean` is false): an instance round-trips when it lies in *some* fragment, F1 with any
+combination of namespaces or a feature-indexed one. -/
+theorem bind_generate_partial (e : BEnv) (Γ : Ctx) (cfg : SerCfg) (pcfg : ParserConfig) (c : ClassId) (v : Val)
+    (h : (ctxF1G false Γ = true ∧ valF1 e Γ c v = true) ∨
+      ∃ ft : Feat, ctxOK ft Γ = true ∧ valOKI ft.inherit e Γ c v = true) :
+    ∃ evs t, generate e Γ cfg v = .ok evs ∧ eventsTree (isDatatype Γ) evs = .ok t ∧
+      parseRoot e Γ pcfg c t = .ok (v, 0) := by
+  rcases h with ⟨hΓ, hv⟩ | ⟨ft, hΓ, hv⟩
+  · exact bind_generate_anyNamespaces e Γ cfg pcfg c v hΓ hv
+  · exact bind_generate_FN ft e Γ cfg pcfg c v hΓ hv
+
 def featF2 : Feat := { nillable := true }
 def featF3 : Feat := { nillable := true, tokens := true }
 def featF4 : Feat := { nillable := true, tokens := true, wrapper := true }
@@ -443,8 +455,9 @@ def featF8 : Feat :=
   { nillable := true, tokens := true, wrapper := true, sequence := true, fixed := true, anyAttrs := true,
     inherit := true, wildcard := true }
 
-/-- **C01, fragment F8** = F7 + one list wildcard per class without text var (`List[object]` with
-`metadata={"type": "Wildcard"}`, any `namespace` and `process_contents`), whose items are generic
+/-- **C01, fragment F8** = F7 + one wildcard per class without text var (`List[object]`, or
+`Optional[object]` holding one generic element or `None`, with `metadata={"type": "Wildcard"}`, any
+`namespace` and `process_contents`), whose items are generic
 elements (`AnyElement`) in the form the parser builds (`canonAny`: a name, text `""` rather than
 `None`, no tail, attributes with distinct keys, children of the same form).  The name of an item must be
 one that `ElementNode.child` hands to the wildcard: not a declared element or wrapper of the class, in
@@ -516,5 +529,105 @@ such values on code and model; the statement about tails is C11's) -/
 def w15 : Val := .obj (s "Root")
   [(s "a", .none), (s "w", .list [.any (some (s "g")) (some []) (some (s "x")) [] []]), (s "z", .list [])]
 example : valOKI true e0 Γ8 (s "Root") w15 = false := by decide
+
+/-! #### positive instances of the smaller fragments -/
+
+/-- F2: `a: Optional[str]` nillable holding `None` (written `<a xsi:nil="true"/>`) -/
+def v2n : Val := .obj (s "Root") [(s "a", .none)]
+example : ctxOK featF2 Γw6 = true ∧ ctxOK {} Γw6 = false ∧ valOK e0 Γw6 (s "Root") v2n = true := by decide
+example : ∃ evs t, generate e0 Γw6 {} v2n = .ok evs ∧ eventsTree (isDatatype Γw6) evs = .ok t ∧
+    parseRoot e0 Γw6 {} (s "Root") t = .ok (v2n, 0) :=
+  bind_generate_F2 e0 Γw6 {} {} (s "Root") v2n (by decide) (by decide)
+example : treeOf Γw6 v2n = .node (s "Root") [] [] none [.node (s "a") [(xsiNil, s "true")] [] none [] none] none := rfl
+
+/-- F3: a nillable class whose text is a token list, `Root(c=[Leaf(v=[1, 2])])` -/
+def v3t : Val := .obj (s "Root") [(s "c", .list [.obj (s "Leaf") [(s "v", .list [.prim (.int 1), .prim (.int 2)])]])]
+example : ctxOK featF3 Γw8 = true ∧ ctxOK featF2 Γw8 = false ∧ valOK e0 Γw8 (s "Root") v3t = true := by decide
+example : ∃ evs t, generate e0 Γw8 {} v3t = .ok evs ∧ eventsTree (isDatatype Γw8) evs = .ok t ∧
+    parseRoot e0 Γw8 {} (s "Root") t = .ok (v3t, 0) :=
+  bind_generate_F3 e0 Γw8 {} {} (s "Root") v3t (by decide) (by decide)
+
+/-- the union statement on an instance of each kind -/
+example : ∃ evs t, generate e0 Γw8 {} v3t = .ok evs ∧ eventsTree (isDatatype Γw8) evs = .ok t ∧
+    parseRoot e0 Γw8 {} (s "Root") t = .ok (v3t, 0) :=
+  bind_generate_partial e0 Γw8 {} {} (s "Root") v3t (Or.inr ⟨featF3, by decide, by decide⟩)
+example : ∃ evs t, generate e0 Γ2 {} v2 = .ok evs ∧ eventsTree (isDatatype Γ2) evs = .ok t ∧
+    parseRoot e0 Γ2 {} (s "Root") t = .ok (v2, 0) :=
+  bind_generate_partial e0 Γ2 {} {} (s "Root") v2 (Or.inl ⟨by decide, by decide⟩)
+
+/-! #### a single (non-list) wildcard -/
+
+def gW1 : XmlVar :=
+  { mkVarN 2 "w" "w" .wildcard [.obj] with namespaces := [s "##any"] }
+/-- `Root`: `a: Optional[str]`, `w: Optional[object]` (wildcard), `z: List[int]` -/
+def gRoot1 : ClassInfo := classOf "Root"
+  { mkMeta "Root" "Root" none [gA, gZ] [] with wildcards := [gW1] }
+  [⟨s "a", true, some .none⟩, ⟨s "w", true, some .none⟩, ⟨s "z", true, some (.list [])⟩]
+def Γ8o : Ctx := twoClasses w5Leaf gRoot1
+
+def v8o : Val := .obj (s "Root")
+  [(s "a", .prim (.str (s "x"))),
+   (s "w", anyEl "g" "" [("k", "1")] [anyEl "{urn:g}h" "u" [] [], anyEl "i" "" [] []]),
+   (s "z", .list [.prim (.int 1)])]
+def v8n : Val := .obj (s "Root") [(s "a", .none), (s "w", .none), (s "z", .list [])]
+
+example : ctxOK featF8 Γ8o = true ∧ valOKI true e0 Γ8o (s "Root") v8o = true ∧
+    valOKI true e0 Γ8o (s "Root") v8n = true := by decide
+example : ∃ evs t, generate e0 Γ8o {} v8o = .ok evs ∧ eventsTree (isDatatype Γ8o) evs = .ok t ∧
+    parseRoot e0 Γ8o {} (s "Root") t = .ok (v8o, 0) :=
+  bind_generate_F8 e0 Γ8o {} {} (s "Root") v8o (by decide) (by decide)
+example : ∃ evs t, generate e0 Γ8o {} v8n = .ok evs ∧ eventsTree (isDatatype Γ8o) evs = .ok t ∧
+    parseRoot e0 Γ8o {} (s "Root") t = .ok (v8n, 0) :=
+  bind_generate_F8 e0 Γ8o {} {} (s "Root") v8n (by decide) (by decide)
+/-- a list in a single wildcard is outside the fragment -/
+example : valOKI true e0 Γ8o (s "Root") (.obj (s "Root") [(s "a", .none), (s "w", .list []), (s "z", .list [])]) = false := by
+  decide
+
+/-! #### unions of primitives -/
+
+def featF9 : Feat :=
+  { nillable := true, tokens := true, wrapper := true, sequence := true, fixed := true, anyAttrs := true,
+    inherit := true, wildcard := true, union := true }
+
+/-- **C01, fragment F9** = F8 + element vars whose type is a union of `str` / `int` / `bool`
+(`Optional[Union[..]]` with default `None`, or a list of them).  A value must be what
+`converter.deserialize` makes of its own serialization: no type that the converter tries earlier
+accepts the text (`unionItemOK`, evaluated with the model's converter). -/
+theorem bind_generate_F9 (e : BEnv) (Γ : Ctx) (cfg : SerCfg) (pcfg : ParserConfig) (c : ClassId) (v : Val)
+    (hΓ : ctxOK featF9 Γ = true) (hv : valOKI true e Γ c v = true) :
+    ∃ evs t, generate e Γ cfg v = .ok evs ∧ eventsTree (isDatatype Γ) evs = .ok t ∧
+      parseRoot e Γ pcfg c t = .ok (v, 0) :=
+  bind_generate_FN featF9 e Γ cfg pcfg c v hΓ hv
+
+/-- `a: Optional[Union[int, str]]`, `b: List[Union[bool, str]]` (the converter tries `int` before `str`,
+`bool` before `str`) -/
+def uA : XmlVar := mkVarN 1 "a" "a" .element [.prim .int, .prim .str]
+def uB : XmlVar := mkVarN 2 "b" "b" .element [.prim .bool, .prim .str] (listElement := true) (default := .listFactory)
+def Γ9 : Ctx := rootOnly [uA, uB] [] none [⟨s "a", true, some .none⟩, ⟨s "b", true, some (.list [])⟩]
+
+def v9 : Val := .obj (s "Root")
+  [(s "a", .prim (.str (s "abc"))), (s "b", .list [.prim (.bool true), .prim (.str (s "x")), .prim (.str [])])]
+def v9i : Val := .obj (s "Root") [(s "a", .prim (.int 5)), (s "b", .list [])]
+
+example : ctxOK featF9 Γ9 = true ∧ ctxOK featF8 Γ9 = false ∧ valOKI true e0 Γ9 (s "Root") v9 = true ∧
+    valOKI true e0 Γ9 (s "Root") v9i = true := by decide
+example : ∃ evs t, generate e0 Γ9 {} v9 = .ok evs ∧ eventsTree (isDatatype Γ9) evs = .ok t ∧
+    parseRoot e0 Γ9 {} (s "Root") t = .ok (v9, 0) :=
+  bind_generate_F9 e0 Γ9 {} {} (s "Root") v9 (by decide) (by decide)
+
+/-- witness 16: a `str` that an earlier type of the union accepts, `Root(b=["true"])` with
+`b: List[Union[bool, str]]` (likewise `"5"` under `Union[int, str]`) … -/
+def w16 : Val := .obj (s "Root") [(s "a", .none), (s "b", .list [.prim (.str (s "true"))])]
+
+/-- … comes back as the `bool` `True` -/
+theorem union_str_reads_as_earlier_type_witness :
+    ctxOK featF9 Γ9 = true ∧ valOKI true e0 Γ9 (s "Root") w16 = false ∧
+    generate e0 Γ9 {} w16 = .ok (evsOf Γ9 w16) ∧
+    eventsTree (isDatatype Γ9) (evsOf Γ9 w16) = .ok (treeOf Γ9 w16) ∧
+    treeOf Γ9 w16 = .node (s "Root") [] [] none [.node (s "b") [] [] (some (s "true")) [] none] none ∧
+    parseRoot e0 Γ9 {} (s "Root")
+        (.node (s "Root") [] [] none [.node (s "b") [] [] (some (s "true")) [] none] none) =
+      .ok (.obj (s "Root") [(s "a", .none), (s "b", .list [.prim (.bool true)])], 0) :=
+  ⟨by decide, by decide, rfl, rfl, rfl, rfl⟩
 
 end Props.C01
